@@ -45,6 +45,9 @@ type pField struct {
 	// text-only decoration (the descriptor must not depend on it): member of oneof group n / proto3 `optional`
 	oneof    int
 	optional bool
+	// other field options (deprecated, jstype): text only, no descriptor attribute (packedness in particular) depends on them
+	extra      []string
+	extraFirst bool // written before json_name / packed instead of after
 }
 
 type p15Msg struct {
@@ -117,6 +120,11 @@ func (f *pField) text() string {
 		opts = append(opts, "packed = true")
 	} else if f.packopt == 2 {
 		opts = append(opts, "packed = false")
+	}
+	if f.extraFirst {
+		opts = append(append([]string{}, f.extra...), opts...)
+	} else {
+		opts = append(opts, f.extra...)
 	}
 	o := ""
 	if len(opts) > 0 {
@@ -670,6 +678,14 @@ func genFields(r *rng, s *pSchema, f *pFile, m *p15Msg, used map[string]bool, pr
 			}
 			fl.ref = pickRef(r, tab, m.full, target)
 		}
+		// options other than packed, on any label (most interesting on repeated packable fields, with and without packed)
+		if r.chance(22) || (fl.label == 1 && r.chance(25)) {
+			fl.extra = append(fl.extra, []string{"deprecated = true", "deprecated = false"}[r.intn(2)])
+		}
+		if fl.label != 2 && (fl.kind == 3 || fl.kind == 4 || fl.kind == 6 || fl.kind == 16 || fl.kind == 18) && r.chance(30) {
+			fl.extra = append(fl.extra, "jstype = "+[]string{"JS_STRING", "JS_NUMBER", "JS_NORMAL"}[r.intn(3)])
+		}
+		fl.extraFirst = r.bool()
 		if fl.label == 1 {
 			ek := fl.kind
 			if fl.kind == 0 {
@@ -781,6 +797,36 @@ func scenarioSchemas() []*pSchema {
 		}
 		long.fields = append(long.fields, sc(40, "q_"+strings.Repeat("w_", 40)+"z", 3)) // 83-byte name, 43-byte default JSON name
 		f.svcs = []*pSvc{{name: "S", methods: []*pMethod{{name: "M", in: "Req", out: long.name}}}}
+		out = append(out, &pSchema{files: []*pFile{f}})
+	}
+	// S6: repeated packable fields carrying options OTHER than packed, with and without an explicit packed
+	{
+		f := mk("s6.proto", "opt")
+		f.enums = []string{"E"}
+		rp := func(num int, name string, kind int, ref string, packopt int, hasJSON bool, extraFirst bool, extra ...string) *pField {
+			fl := &pField{num: num, name: name, json: jsonDefault(name), label: 1, kind: kind, ref: ref, packopt: packopt, extra: extra, extraFirst: extraFirst}
+			if hasJSON {
+				fl.hasJSON, fl.json = true, "J"+name
+			}
+			return fl
+		}
+		msg(f, nil, "Req",
+			rp(1, "plain", 5, "", 0, false, false),
+			rp(2, "old", 5, "", 0, false, false, "deprecated = true"),
+			rp(3, "old_f", 5, "", 0, false, false, "deprecated = false"),
+			rp(4, "named", 17, "", 0, true, false),
+			rp(5, "big", 3, "", 0, false, false, "jstype = JS_STRING"),
+			rp(6, "big_u", 4, "", 0, true, true, "jstype = JS_NUMBER", "deprecated = true"),
+			rp(7, "flags", 8, "", 0, false, false, "deprecated = true"),
+			rp(8, "es", 0, "E", 0, false, true, "deprecated = true"),
+			rp(9, "p_old", 13, "", 1, false, true, "deprecated = true"),
+			rp(10, "u_old", 13, "", 2, false, false, "deprecated = true"),
+			rp(11, "u_old2", 16, "", 2, true, true, "jstype = JS_NORMAL"),
+			rp(12, "strs", 9, "", 0, false, false, "deprecated = true"),
+			rp(13, "fl", 2, "", 0, true, false, "deprecated = true"),
+			&pField{num: 14, name: "one", json: "one", kind: 5, extra: []string{"deprecated = true"}},
+			&pField{num: 15, name: "m", json: "m", label: 2, keykind: 9, kind: 3, extra: []string{"deprecated = true"}})
+		f.svcs = []*pSvc{{name: "S", methods: []*pMethod{{name: "M", in: "Req", out: "Req"}}}}
 		out = append(out, &pSchema{files: []*pFile{f}})
 	}
 	return out
